@@ -91,8 +91,11 @@ def big_heap(rng):
 def random_pool(rng, kind, cap, el, nops):
     lines = ["R %s %d %d" % (kind, cap, el)]
     nlive = 0
+    engaged = False
     for _ in range(nops):
-        if rng.random() < 0.55 or nlive == 0:
+        if kind == "ph" and not engaged and rng.random() < 0.06:
+            n2 = rng.randrange(1, 6); lines.append("PEngage %d" % n2); cap += n2; engaged = True      # a second zone for the same pool
+        elif rng.random() < 0.55 or nlive == 0:
             lines.append("PAlloc"); nlive = min(cap, nlive + 1)
         else:
             k = rng.choice([0, nlive - 1, rng.randrange(nlive)])
@@ -155,6 +158,7 @@ def replay(ctx, path):
         elif n == "Free": lines.append("Free %d" % e["id"])
         elif n == "FreeNull": lines.append("FreeNull")
         elif n == "Realloc": lines.append("Realloc %d %d" % (e["id"], nb(e)))
+        elif n == "PEngage": lines.append("PEngage %d" % e["n2"])
         elif n == "PAlloc":
             lines.append("PAlloc")
             if e["cell"] >= 0: nl.append(e["cell"])
